@@ -7,6 +7,7 @@ import os
 import random
 import re
 import struct
+import sys
 
 from vlib import build, pipeline, tlc
 
@@ -299,13 +300,17 @@ def ex_text(rng, depth):
 
 def ex_nest(rng, depth):
     kind = rng.choice(["arr", "obj", "mix"])
+    inner = rng.choice(["1", '"x"', "null", "[]", "{}"])
     open_, close_ = "", ""
-    for i in range(depth):
+    for i in range(depth - (1 if inner in ("[]", "{}") else 0)):        # an empty container is a level of its own
         o = kind == "obj" or (kind == "mix" and i % 2 == 1)
         open_ += '{"k":' if o else "["
         close_ = ("}" if o else "]") + close_
-    text = open_ + rng.choice(["1", '"x"', "null", "[]", "{}"]) + close_
-    return ["RESET", "PARSE 0 %s" % hx(text.encode()), "PRINT 0 0 0 0", "PARSELAST 6", "RT 0 6", "CMP 0 6", "DESTROY 6", "DUP 0 7", "CMP 0 7"]
+    text = open_ + inner + close_
+    # aws_json_value_compare visits the members of nested objects from both sides (2^depth calls): only compared for arrays
+    cmp6, cmp7 = (["CMP 0 6"], ["CMP 0 7"]) if kind == "arr" else ([], [])
+    return (["RESET", "FLAT 1", "PARSE 0 %s" % hx(text.encode()), "PRINT 0 0 0 0", "PARSELAST 6", "RT 0 6"] + cmp6 +
+            ["DESTROY 6", "PRINT 0 1 0 0", "PARSELAST 6", "RT 0 6", "DESTROY 6", "DUP 0 7"] + cmp7)
 
 
 def from_tlc(s):
@@ -385,6 +390,7 @@ def known_devs(ctx):
 def run(ctx):
     thorough = ctx.tier == "thorough"
     exe = prepare(ctx)
+    sys.setrecursionlimit(max(sys.getrecursionlimit(), 20000))
     ctx.rule = ("evaluation = one public aws_json_* call (one trace event); execution = one API program or one parsed text with "
                 "its compact and formatted round trips; distinct = distinct execution text; non-trivial = contains a container "
                 "with a member and a serialisation")
